@@ -25,6 +25,12 @@ func strAxioms(features map[string]bool, quant bool) []string {
 		ax = append(ax, "(forall ((a Str) (b Str)) (! (= (s.len (s.cat a b)) (+ (s.len a) (s.len b))) :pattern ((s.cat a b))))")
 		ax = append(ax, "(forall ((a Str) (b Str) (i Int)) (! (= (s.at (s.cat a b) i) (ite (< i (s.len a)) (s.at a i) (s.at b (- i (s.len a))))) :pattern ((s.at (s.cat a b) i))))")
 	}
+	if features["strcat"] {
+		// monoid laws (proved from extensionality: theory.bytestrings/lemma[cat-...])
+		ax = append(ax, "(forall ((a Str) (b Str)) (! (=> (= (s.len b) 0) (= (s.cat a b) a)) :pattern ((s.cat a b))))")
+		ax = append(ax, "(forall ((a Str) (b Str)) (! (=> (= (s.len a) 0) (= (s.cat a b) b)) :pattern ((s.cat a b))))")
+		ax = append(ax, "(forall ((a Str) (b Str) (c Str)) (! (= (s.cat (s.cat a b) c) (s.cat a (s.cat b c))) :pattern ((s.cat (s.cat a b) c))))")
+	}
 	if features["strsub"] {
 		ax = append(ax, "(forall ((s Str) (lo Int) (hi Int) (i Int)) (! (=> (and (<= 0 i) (< i (- hi lo))) (= (s.at (s.sub s lo hi) i) (s.at s (+ lo i)))) :pattern ((s.at (s.sub s lo hi) i))))")
 		ax = append(ax, "(forall ((s Str) (lo Int) (hi Int)) (! (=> (and (<= 0 lo) (<= lo hi) (<= hi (s.len s))) (= (s.len (s.sub s lo hi)) (- hi lo))) :pattern ((s.sub s lo hi))))")
@@ -413,6 +419,8 @@ func batchDischarge(u *Unit, obls []*Obligation, dir string, perQueryMs int) {
 	sb.WriteString(u.smtHeader(len(u.cmds)))
 	// per-query budget of the incremental session: a resource limit as well (about perQueryMs of work on an idle core)
 	fmt.Fprintf(&sb, "(set-option :rlimit %d)\n", perQueryMs*2500)
+	// wall-clock safety net per query (a query that does not come back within 15 budgets is left to the race)
+	fmt.Fprintf(&sb, "(set-option :timeout %d)\n", perQueryMs*15)
 	nf := 0
 	// vacuity guard: the entry assumptions (type invariants + requires) must not be contradictory
 	for nf < u.nFactsEntry && nf < len(u.facts) {
